@@ -15,6 +15,8 @@ thread_local! { static LOG: RefCell<Vec<Ev>> = RefCell::new(Vec::new()); }
 pub fn log_take() -> Vec<Ev> { LOG.with(|l| std::mem::take(&mut *l.borrow_mut())) }
 pub fn log_clear() { LOG.with(|l| l.borrow_mut().clear()); }
 fn push(e: Ev) { LOG.with(|l| l.borrow_mut().push(e)); }
+/// records a read of element `id` (for element types defined elsewhere)
+pub fn log_read(id: u32) { push(Ev::Read(id)); }
 
 pub struct Tracked { pub id: u32 }
 impl Tracked {
